@@ -8,3 +8,4 @@
 -/
 import ForsysModel.Props.C12
 import ForsysModel.Props.C12relabel
+import ForsysModel.Props.C12more
